@@ -1002,3 +1002,60 @@ package command
 //@                    call newARPCmd() as (a) ; call newICMPCmd() as (i) ; call newUDPCmd() as (u) ; call newSocksCmd() as (so) ; call newDockerCmd() as (d) ; call newElasticCmd() as (e) ; call AddCommand(ret, bind_top)]
 //@                      when atcall(sub, len(sub) == 4 && sub[0] == s1.cmd && sub[1] == s2.cmd && sub[2] == s3.cmd && sub[3] == s4.cmd)
 //@                        && atcall(top, len(top) == 7 && top[0] == a.cmd && top[1] == i.cmd && top[2] == u.cmd && top[3] == t.cmd && top[4] == so.cmd && top[5] == d.cmd && top[6] == e.cmd) -> exit
+
+// option constructors: each returns its own option closure over exactly its argument (verified here, inlined at call sites)
+//@ func withExitDelay
+//@   inline
+//@   props C16 C01 C03 C07 C08 C13 C14 C15
+//@   ensures closureof(ret, "withExitDelay$1") && capt(ret, "exitDelay") == exitDelay
+//@ func withLogger
+//@   inline
+//@   props C16 C14 C01 C03 C07 C08 C13 C15
+//@   ensures closureof(ret, "withLogger$1") && capt(ret, "logger") == logger
+//@ func withPacketBPFFilter
+//@   inline
+//@   props C03
+//@   ensures closureof(ret, "withPacketBPFFilter$1") && capt(ret, "bpfFilter") == bpfFilter
+//@ func withPacketScanMethod
+//@   inline
+//@   props C03
+//@   ensures closureof(ret, "withPacketScanMethod$1") && capt(ret, "sm") == sm
+//@ func withPacketVPNmode
+//@   inline
+//@   props C17 C05
+//@   ensures closureof(ret, "withPacketVPNmode$1") && capt(ret, "vpnMode") == vpnMode
+//@ func withRateCount
+//@   inline
+//@   props C15
+//@   ensures closureof(ret, "withRateCount$1") && capt(ret, "rateCount") == rateCount
+//@ func withRateWindow
+//@   inline
+//@   props C15
+//@   ensures closureof(ret, "withRateWindow$1") && capt(ret, "rateWindow") == rateWindow
+//@ func withTCPPacketFillerOptions
+//@   inline
+//@   props C03 C05
+//@   ensures closureof(ret, "withTCPPacketFillerOptions$1") && capt(ret, "opts") == opts
+//@ func withTCPPacketFilterFunc
+//@   inline
+//@   props C03 C05
+//@   ensures closureof(ret, "withTCPPacketFilterFunc$1") && capt(ret, "filter") == filter
+//@ func withTCPPacketFlags
+//@   inline
+//@   props C03 C05
+//@   ensures closureof(ret, "withTCPPacketFlags$1") && capt(ret, "packetFlags") == packetFlags
+//@ func withTCPScanName
+//@   inline
+//@   props C03 C05
+//@   ensures closureof(ret, "withTCPScanName$1") && capt(ret, "scanName") == scanName
+
+// ARP cache source (C11): a named file is opened as such; standard input is accepted only when it is not a
+// terminal, and is then read as it is
+//@ func (*ipScanCmdOpts).openARPCache
+//@   props C11
+//@   observe os.Open, Stat, Mode, io.NopCloser
+//@   entry row file:   [call os.Open(o.arpCacheFile) as (f, e)] when !(len(o.arpCacheFile) == 0 || o.arpCacheFile == "-") && ret1 == e && isptr(ret0, os.File) && asptr(ret0, os.File) == f -> exit
+//@   entry row nostat: [call Stat(os.Stdin) as (info, e)] when (len(o.arpCacheFile) == 0 || o.arpCacheFile == "-") && e != nil && ret1 == e -> exit
+//@   entry row tty:    [call Stat(os.Stdin) as (info, e) ; call Mode(info) as (m)] when (len(o.arpCacheFile) == 0 || o.arpCacheFile == "-") && e == nil && bitand(m, 2097152) != 0 && ret0 == nil && ret1 == errARPCacheStdin -> exit
+//@   entry row pipe:   [call Stat(os.Stdin) as (info, e) ; call Mode(info) as (m) ; call io.NopCloser(bind_r) as (c)]
+//@                        when (len(o.arpCacheFile) == 0 || o.arpCacheFile == "-") && e == nil && bitand(m, 2097152) == 0 && isptr(r, os.File) && asptr(r, os.File) == os.Stdin && ret0 == c && ret1 == nil -> exit
